@@ -19,7 +19,7 @@ PROP = "C10"
 FAMILIES = {"c01": c01, "c02": c02, "c03": c03, "c04": c04, "c05": c05, "c06": c06}
 
 
-def _repeated_subexpr_program(ch: Chooser):
+def _repeated_subexpr_program(ch: Chooser, min_triples: int = 0):
     """Programs biased to what the optimiser touches: repeated sub-expressions that differ only in
     output type or copy/constant mode, folded constants feeding property writes, high fan-out."""
     g = gen.ScalarGen(ch, gen.ScalarGen.swarm(ch))
@@ -45,12 +45,15 @@ def _repeated_subexpr_program(ch: Chooser):
         c.stmts.append(["decl", "Signal", nm, e])
         c.sigs.append(nm)
     # reuse triples: a computed value t, a same-typed derived value T = f(t), and a consumer of both
-    for _ in range(ch.rint(0, 3)):
+    for _ in range(ch.rint(min_triples, 3)):
         src = g.sig_leaf()
         t = c.fresh("t")
         c.stmts.append(["decl", "Signal", t, ["bin", ch.pick(["*", "+", "-"]), src, ["lit", ch.rint(2, 9), 10]]])
         T = c.fresh("t")
-        c.stmts.append(["decl", "Signal", T, ["bin", ch.pick(["+", "*", "<<", "-"]), ["var", t], ["lit", ch.rint(1, 5), 10]]])
+        te = ["bin", ch.pick(["+", "*", "<<", "-"]), ["var", t], ["lit", ch.rint(1, 5), 10]]
+        if ch.chance(1, 2):
+            te = ["proj", te, ch.pick(g.type_pool())]      # derived value on another type: same colour
+        c.stmts.append(["decl", "Signal", T, te])
         S = c.fresh("s")
         a, b = (["var", t], ["var", T]) if ch.chance(1, 2) else (["var", T], ["var", t])
         c.stmts.append(["decl", "Signal", S, ["bin", ch.pick(["-", "*", "XOR", "+", "/"]), a, b]])
